@@ -148,7 +148,7 @@ def correspondence(ctx):
         # tape[idx] may be the imins evaluation or already the first secant evaluation (both at qimin): keep all from the first one at qimin
         first = min(i for i, (q, r) in enumerate(tape) if same_float(q, qimin))
         sec = tape[first:]
-        toks = [enc(imins[0]), enc(imins[3]), enc(qimin), enc(fl[-1]), str(len(sec))] + [enc(x) for q, r in sec for x in (q, r[0] - r[3])]
+        toks = [enc(imins[0]), enc(imins[3]), enc(qimin), enc(fl[-1]), str(len(sec))] + [enc(x) for q, r in sec for x in (q, r[0], r[3])]
         lines.append('spec.findop ' + ' '.join(toks))
         metas.append((pl, out, qimin))
     outs = run_model(lines)
@@ -207,7 +207,11 @@ def monitor(ctx, extended=False):
             ctx.violation(f'minimum-friction search raised {type(e).__name__}: {e}', {'pipeline': desc}, key='qimin')
             continue
         if hs_min > min(tab) + 0.001 * abs(min(tab)) + 1e-9:
-            ctx.violation(f'system head at the reported minimum-friction flow {qimin!r} is {hs_min!r}; a tabulated flow has {min(tab)!r}', {'pipeline': desc}, key='qimin')
+            # a local minimum of a system curve with two valleys (scipy's bounded Brent converged, but not to the global one) is the listed finding;
+            # anything else (not even a local minimum) is a different violation
+            local = all(pl.calc_system_head(qimin * f)[0] >= hs_min - 1e-9 * abs(hs_min) for f in (0.99, 0.999, 1.001, 1.01))
+            ctx.violation(f'system head at the reported minimum-friction flow {qimin!r} is {hs_min!r}; a tabulated flow has {min(tab)!r}', {'pipeline': desc},
+                          key='qimin-local-minimum' if local else 'qimin')
         out, _ = run_system(pl, fl)
         modes = tuple(sorted(s.limited for s in pl.pumps))
         if out[0] == 'other':
@@ -225,15 +229,34 @@ def monitor(ctx, extended=False):
             if hl > pl_:
                 meets, qm = bisect_meet(pl, qimin, fl[-1])
                 if meets:
-                    if out[0] != 'flow' or not rel_close(out[1], qm, 1e-6):
-                        # the secant may legitimately find another crossing only if there are several; check it is a crossing from below right of qimin
-                        okalt = False
-                        if out[0] == 'flow' and out[1] >= qimin * (1 - 1e-9):
-                            e = max(1e-6, 1e-6 * out[1])
-                            g1 = pl.calc_system_head(out[1] - e)
-                            g2 = pl.calc_system_head(out[1] + e)
-                            okalt = (g1[0] - g1[3]) < (g2[0] - g2[3])
-                        if not okalt:
-                            ctx.violation(f'the curves meet at {qm!r} (right of qimin {qimin!r}) but the search gave {out}', {'pipeline': desc}, key='misses-crossing')
+                    # the search must return a flow right of qimin with equal heads (checked above) at which the system curve crosses from below
+                    ok = out[0] == 'flow' and out[1] >= qimin * (1 - 1e-9)
+                    if ok:
+                        e = 1e-3 * out[1]
+                        g1 = pl.calc_system_head(out[1] - e)
+                        g2 = pl.calc_system_head(out[1] + e)
+                        ok = (g1[0] - g1[3]) < (g2[0] - g2[3])
+                    if not ok:
+                        ctx.violation(f'the curves meet at {qm!r} (right of qimin {qimin!r}) but the search gave {out}', {'pipeline': desc}, key='misses-crossing')
         classes.add((out[0], modes, marginal))
     ctx.stats['distinct_nontrivial'] = len(classes)
+
+
+KNOWN_WITNESS = {'sections': [['pipe', 0.6, 0.0, 1.0, -12.81225603231373], ['pump', 'Ladder_Pump', 'torque', 1491.4, 1.0, 3.75, 1.88, None],
+                              ['pump', 'Main_Pump500', 'None', 1440.0, 1.0, 7.5, 1.4224, None], ['pipe', 0.6, 21.397493389576745, 1.0, 4.4109394119248115]],
+                 'slurry': {'Dp': 0.6, 'fluid': 'salt', 'rhos': 2.7776102939120384, 'Cv': 0.34931381050659466, 'D50': 0.0022729693887545317,
+                            'r15': 3.800867802131664, 'r85': 1.0201}}
+
+
+def replay_known(kf):
+    """witness of the listed finding `qimin-local-minimum`: True if it still reproduces"""
+    if kf['key'] != 'qimin-local-minimum':
+        return False
+    with warnings.catch_warnings():
+        warnings.simplefilter('ignore')
+        pl = G.rebuild(kf.get('witness', {}).get('pipeline') or KNOWN_WITNESS)
+        fl = flow_list_of(pl)
+        q = pl.qimin(fl)
+        hs = pl.calc_system_head(q)[0]
+        tab = min(pl.calc_system_head(x)[0] for x in fl)
+    return hs > tab + 0.001 * abs(tab) + 1e-9
